@@ -794,6 +794,32 @@ PROPS["E07"] = dict(
     assumptions=COMMON_ASSUMPTIONS + ["the scratch directory under the system temp dir is writable; no file /no/such/root.js exists"],
 )
 
+def _corrupt_e09(e):
+    o = e["out"]
+    if o.get("k") != "ok":
+        return False
+    if o["url"]:
+        o["url"][0] = o["url"][0] + [47]
+    else:
+        o["url"] = [[104]]
+    return True
+
+PROPS["E09"] = dict(
+    level="exploration",
+    level_text="extension: SourceMapRef::get_url / resolve / resolve_path (both enum variants) against the joining arithmetic of RefResolve.tla over a closed URL alphabet: data references and non-URL bases resolve to nothing, own scheme / '//' / '/' / empty path / relative path references, dot segments, query and fragment; the path form answers only for host-less results",
+    level_note="beyond the listed properties; not registered in MANIFEST.json; the url crate's percent-encoding, default ports, drive letters and non-special schemes are outside the alphabet",
+    technique="TLA+ as-found specification (RefResolve.tla), TLC checks seven theorems of the arithmetic on a bounded universe and enumerates it, trace validation of the real calls",
+    mc=[dict(module="MC_RefResolve", cfg="MC_RefResolve_quick.cfg", tiers=("quick",), workers=8),
+        dict(module="MC_RefResolve", cfg="MC_RefResolve_thorough.cfg", tiers=("thorough",), workers=12, timeout=1800)],
+    trace="Trace_E09",
+    selftest_include_free=True,
+    drive=dict(quick=dict(n=4000, size=3), thorough=dict(n=80000, size=5)),
+    nontrivial=lambda e: e["out"].get("k") == "ok" and bool(e["out"]["url"] or e["out"]["path"]),
+    corrupt=_corrupt_e09,
+    rule="every (base path, reference) of MC_RefResolve (components a, b, '.', '..', empty; five reference kinds; query / fragment tails; http, file and non-URL bases) and seeded random ones over 12 component names and 5 hosts; distinct = distinct (ref, base, path); non-trivial = at least one of the two answers exists",
+    assumptions=COMMON_ASSUMPTIONS,
+)
+
 def _corrupt_e08(e):
     o = e["out"]
     if o.get("k") == "ok":
